@@ -374,6 +374,120 @@ func runStall(a *args, res *result) {
 			}
 		}
 	}
+	// ---- parked-reader scenarios: the READER is suspended between two of its own
+	// atomic operations, a first writer completes an update of the key it is
+	// looking up (so that whatever the reader had half-read is stale), a second
+	// writer then stalls inside its user function while holding that bucket, and
+	// only then is the reader resumed: it must still finish on its own steps.
+	for round := int64(0); round < rounds; round++ {
+		for _, kind := range stallKinds {
+			unit++
+			if !a.mine(unit - 1) {
+				continue
+			}
+			r := newRng(a.seed, uint64(unit)*8+3)
+			probe := newStallTarget(r, kind, 64)
+			nLook := len(probe.load) + len(probe.hit)
+			for li := 0; li < nLook; li++ {
+				misses, points := 0, 0
+				for N := int64(1); misses < 3 && N < 200; N++ {
+					vshim.SetVNow(epoch)
+					t := newStallTarget(r, kind, 2048)
+					for k := 0; k < 30; k++ {
+						t.store(k, nextVal(k))
+					}
+					const X = 4
+					v0, _ := t.load[0](X)
+					name := ""
+					var look func() (any, bool)
+					if li < len(t.load) {
+						name, look = t.loadNm[li], func() (any, bool) { return t.load[li](X) }
+					} else {
+						h := li - len(t.load)
+						name, look = t.hitNm[h], func() (any, bool) { return t.hit[h](X, nextVal(X)) }
+					}
+					logCase("stall parked-reader %s %s N=%d", kind, name, N)
+					res.Evaluations++
+					type rres struct {
+						v  any
+						ok bool
+					}
+					rdone := make(chan rres, 1)
+					vshim.ResetGStep()
+					vshim.SetStepBudget(0)
+					vshim.SetMode(vshim.MGlobal | vshim.MPoll | vshim.MCount)
+					vshim.ArmPark(N)
+					go func() {
+						v, ok := look()
+						rdone <- rres{v, ok}
+					}()
+					parked := false
+					select {
+					case <-vshim.Parked():
+						parked = true
+					case <-rdone:
+					}
+					if !parked {
+						vshim.ArmPark(0)
+						vshim.SetMode(0)
+						misses++
+						continue
+					}
+					misses = 0
+					points++
+					// writer A: completes an in-place update of X
+					v1 := nextVal(X)
+					t.store(X, v1)
+					// writer B: stalls in its user function, holding X's bucket
+					fnBlocked := make(chan struct{}, 1)
+					release := make(chan struct{})
+					bdone := make(chan struct{})
+					go func() {
+						t.compute(X, func(old any, l bool) (any, bool) {
+							fnBlocked <- struct{}{}
+							<-release
+							return old, false
+						})
+						close(bdone)
+					}()
+					<-fnBlocked
+					vshim.SetStepBudget(50 * readerStepLimit)
+					s0 := vshim.GStep()
+					vshim.Resume()
+					var finding, msg string
+					select {
+					case rr := <-rdone:
+						d := vshim.GStep() - s0
+						if d > maxReaderSteps {
+							maxReaderSteps = d
+						}
+						if d > readerStepLimit {
+							finding, msg = name+" needs more than 10^4 own steps (reader suspended mid-lookup, then a writer stalls)", fmt.Sprintf("%d steps", d)
+						} else if !rr.ok || (rr.v != v0 && rr.v != v1) {
+							finding, msg = name+" returns neither the old nor the new value (reader suspended mid-lookup)", fmt.Sprintf("(%s,%v), old %s new %s", fmtVal(rr.v), rr.ok, fmtVal(v0), fmtVal(v1))
+						}
+					case why := <-stuckCh:
+						finding, msg = "a read-only call suspended mid-lookup does not return once a writer stalls on its bucket ("+kind+")", why
+					}
+					vshim.SetStepBudget(0)
+					close(release)
+					<-bdone
+					vshim.SetMode(0)
+					res.count("parked_reader_scenarios", 1)
+					fp := newFP()
+					fp.addStr(kind + name + "parked-reader")
+					fp.add(uint64(N), uint64(round))
+					res.nontrivial(fp.sum())
+					if finding != "" {
+						res.violate(violation{Class: "stall", Sig: finding, Msg: fmt.Sprintf("%s, %s parked at its step %d: %s", kind, name, N, msg),
+							Case: map[string]any{"case_index": round, "kind": kind, "reader": name, "stall_point": N}})
+						break
+					}
+				}
+				res.max("max_reader_stall_points", int64(points))
+			}
+		}
+	}
 	res.max("max_reader_steps", maxReaderSteps)
 	res.sample(map[string]any{"kinds": stallKinds, "writer_operations": func() []string {
 		var n []string
